@@ -1973,6 +1973,19 @@ class Manager(utils.EventEmitter):
         ):
             session = None
         if not session:
+            if command.code != CommandCode.PAIRING_REQUEST:
+                # Only a Pairing Request starts a pairing: anything else that belongs
+                # to no session is refused, and a stray Pairing Failed is ignored
+                # (answering it makes two stacks answer each other for ever).
+                logger.warning(f'unexpected {command.name} without a pairing session')
+                if command.code != CommandCode.PAIRING_FAILED:
+                    self.send_command(
+                        connection,
+                        SMP_Pairing_Failed_Command(
+                            reason=ErrorCode.UNSPECIFIED_REASON
+                        ),
+                    )
+                return
             if connection.role == Role.CENTRAL:
                 logger.warning('Remote starts pairing as Peripheral!')
             pairing_config = self.pairing_config_factory(connection)
